@@ -168,6 +168,7 @@ func checkC38(w *World, r *Run) {
 		}
 	}
 	checkC38Directives(w, r)
+	checkCopySourceCodec(w, r)
 	checkC38ErrorKinds(w, r, T)
 	r.NotCovered("that each SDK field has the same meaning as the option it is filled from; error kinds the endpoint reports with a code that is not the storage error's text; listing pagination behaviour; everything the remote endpoint does")
 }
